@@ -963,6 +963,20 @@ func (f *Frame) resolveMod(m string, env map[string]Val, st *State) []modEntry {
 		if err != nil {
 			f.fail("modifies %s: %v", m, err)
 		}
+		if gt := f.modTypeOf(e, env); gt != nil {
+			// newobjs(T): only objects of struct type T allocated by the callee
+			T, sty := derefStruct(gt)
+			if sty == nil {
+				f.fail("modifies %s: not a struct type", m)
+			}
+			var out []modEntry
+			for _, fi := range un.sinfo(T).fields {
+				hn := un.fieldHeap(T, fi.name)
+				un.heapInit(hn, ArrSort(SInt, fi.sort))
+				out = append(out, modEntry{heap: hn, rows: true})
+			}
+			return out
+		}
 		cv := f.eval(e, &evalCtx{env: env, cur: st, old: st})
 		T, sty := derefStruct(cv.Go)
 		if sty == nil {
@@ -1044,6 +1058,33 @@ func (f *Frame) resolveMod(m string, env map[string]Val, st *State) []modEntry {
 				return []modEntry{{heap: lv.Heap}}
 			case lvElem:
 				return []modEntry{{heap: lv.Heap, ref: lv.Ref}}
+			}
+		}
+	}
+	// a captured variable (free variable of a closure): the cell it lives in
+	if id, ok := e.(EIdent); ok {
+		if v, ok := env[id.Name]; ok && v.LVSelf != nil {
+			lv := v.LVSelf
+			switch lv.Kind {
+			case lvCell:
+				un.heapInit(lv.Heap, ArrSort(SInt, un.u.SortOf(lv.Root)))
+				return []modEntry{{heap: lv.Heap, ref: lv.Ref}}
+			case lvLocal:
+				return []modEntry{{heap: lv.Heap}}
+			case lvObj:
+				var out []modEntry
+				if len(lv.Path) > 0 {
+					fi := un.sinfo(lv.Root).fields[lv.Path[0]]
+					hn := un.fieldHeap(lv.Root, fi.name)
+					un.heapInit(hn, ArrSort(SInt, fi.sort))
+					return []modEntry{{heap: hn, ref: lv.Ref}}
+				}
+				for _, fi := range un.sinfo(lv.Root).fields {
+					hn := un.fieldHeap(lv.Root, fi.name)
+					un.heapInit(hn, ArrSort(SInt, fi.sort))
+					out = append(out, modEntry{heap: hn, ref: lv.Ref})
+				}
+				return out
 			}
 		}
 	}
